@@ -323,6 +323,29 @@ def gen_history(rng, desc):
     return ops
 
 
+def gen_default_limits_case(rng):
+    """limits at and around the code's own default pair (read from the source by the translator) on tables long
+    enough for them to apply: the one place where 'just the defaults' could be mistaken for 'nothing to say'"""
+    from harness import core
+    f, l = c12.extract_constants(core.REPO)["dfltLimits"]
+    lim = list(rng.choice([(f, l), (f, l), (f, l), (f - 1, l), (f, l + 1), (l, f), (f + 1, l - 1), (f, l - 1)]))
+    n = rng.choice([f + l - 5, f + l + 1, f + l + 2, f + l + 10, f + l + 30])
+    fields = [{"name": nm, "enum": None, "title": None} for nm in rng.sample(["id", "grp", "name", "x y"], rng.randint(1, 3))]
+    records = [[(i if k == 0 else (i // 3 if k == 1 else "v%d" % (i % 7))) for k in range(len(fields))] for i in range(n)]
+    cols = [{"f": fl["name"], "mod": None, "brk": (k == 1 and rng.random() < 0.5), "w": c12.gen_width(rng)}
+            for k, fl in enumerate(fields)]
+    how = rng.choice(["fmt", "kwarg", "set"])
+    desc = {"valid": True, "fields": fields, "records": records, "cols": cols, "header": None, "footer": None, "skip": None,
+            "fmt_limits": lim if how == "fmt" else None, "limits": lim if how == "kwarg" else None}
+    desc["fmt"] = c12.fmt_str(rng, cols, desc["fmt_limits"], plain=True)
+    ops = []
+    if how == "set":
+        ops.append("set " + enc_str(";%d:%d" % tuple(lim)))
+    ops += rng.choice([["str", "ctorlast", "print", "str"], ["print", "str", "ctorlast", "print", "str"],
+                       ["str", "setlast", "print", "str", "ctorlast", "print"]])
+    return _case(desc, ops, "default-limits")
+
+
 def _case(desc, ops, kind, direct=False):
     if direct:
         # the format is built from ReprColumn objects: the first string that meets the parser is str(table.fmt)
@@ -354,6 +377,8 @@ def gen_cases(rng, tier):
     for _ in range(200 if quick else 5000):
         desc = c12.gen_malformed(rng)
         yield _case(desc, gen_history(rng, desc), "malformed")
+    for _ in range(120 if quick else 2500):
+        yield gen_default_limits_case(rng)
     for s in gen_parse_lines(rng, 1500 if quick else 60000):
         yield {"lines": ["parse " + enc_str(s)], "meta": {"kind": "parse"}}
     if not quick:
@@ -433,7 +458,8 @@ RULE = ("histories over C12's tables (field names the serialised form can expres
         "free-text modifiers incl. '/'): new - or newobj: the format built from ReprColumn objects, no parser - then 2-8 of str / print / "
         "str+setlast / str+ctorlast / ctorobj (fmt_obj=table.fmt) / sib+swap (a second table from the same format "
         "object with other records, printed and read in either order) / set ''|';'|';;' / set <another well-formed format> / set <malformed>, always "
-        "ending with str, print, str, setlast|ctorlast, print, str; plus `parse <fmt>` lines (fuzzed and edited format "
+        "ending with str, print, str, setlast|ctorlast, print, str; tables of 45-80 records with limits at and around "
+        "the code's own default pair (taken from the source) fed back through both routes; plus `parse <fmt>` lines (fuzzed and edited format "
         "strings; the parser's internal record is compared as a diagnostic). non-trivial = at least one later step answered "
         "with data; distinct by protocol text")
 TRUSTED = list(c12.TRUSTED)
